@@ -6,7 +6,7 @@
    PARTIAL: process-level effects (log.Fatal in library code paths outside the listed error
    classes, OS errors, goroutine scheduling) are runtime behaviour, exercised only. *)
 From stdpp Require Import gmap.
-From Hermes Require Import PoolModel PoolProofs DispatchModel DispatchProofs LongdayModel LongdayProofs.
+From Hermes Require Import PoolModel PoolProofs DispatchModel DispatchProofs LongdayModel LongdayProofs TextureModel TextureProofs.
 
 (* dispatcher: exactly-once, bounded concurrency, termination (same lemma as C03) *)
 Theorem C11_dispatch_terminates :
@@ -96,6 +96,25 @@ Theorem C11_substep_loop_terminates : forall (body : Z -> bool) (steps : Z),
               (0 <= k <= Z.max 0 steps)%Z /\ (e = false -> k = Z.max 0 steps).
 Proof. exact substep_loop_terminates_lemma. Qed.
 
+(* error class "soil texture not in the parameter tables": for tables satisfying the computable
+   condition tables_wf (proved for the shipped PARCAP.TRU / HYPAR.TRU by the generated theorem
+   shipped_tables_wf, regenerated from /repo on every run) the validation in Input accepts a
+   3-character code iff Hydro's look-up finds it in both tables ... *)
+Theorem C11_texture_validation_iff_lookup : forall (parcap hypar : list String.string),
+  tables_wf parcap hypar = true ->
+  forall code, validate parcap code = true <-> lookup parcap hypar code = true.
+Proof. exact texture_validation_iff_lookup_lemma. Qed.
+
+(* ... hence for any spelling of the codes of a soil profile the texture path ends in a run
+   error or in acceptance with every look-up successful, never in the death of the process *)
+Theorem C11_texture_path_never_kills : forall (parcap hypar : list String.string),
+  tables_wf parcap hypar = true ->
+  forall raws, profile_outcome parcap hypar raws <> ProcessDies /\
+    (profile_outcome parcap hypar raws = Accepted <->
+     exists codes, normalize_all raws = Some codes /\
+                   forall c, In c codes -> lookup parcap hypar c = true).
+Proof. exact texture_path_never_kills_lemma. Qed.
+
 (* non-vacuity: latitude-40-like oracle (no 16 h day) gives (0,0,0) after 367 iterations; a
    52.5-like oracle (14 h from day 100, 16 h from day 150) gives TAG 150 *)
 Example C11_nonvacuous :
@@ -113,3 +132,5 @@ Print Assumptions C11_isolation.
 Print Assumptions C11_longday_terminates.
 Print Assumptions C11_day_loop_terminates.
 Print Assumptions C11_substep_loop_terminates.
+Print Assumptions C11_texture_validation_iff_lookup.
+Print Assumptions C11_texture_path_never_kills.
